@@ -100,11 +100,35 @@ def run(ctx):
         model = list(vals)
         ops = []
         bad = False
+        # half of the histories go through ONE dictionary-like interpreted view of the paragraph, looked up again for every
+        # step (what it hands out must reflect the field as it is now); the others ask the field element each time
+        dict_view = next(iter(d)).as_interpreted_dict_view(interp[kind]) if rng.random() < 0.5 else None
         for step in range(rng.randint(0, 3)):
-            op = rng.choice(["append", "remove", "replace", "ref-set", "ref-remove"])
+            op = rng.choice(["append", "remove", "replace", "ref-set", "ref-remove", "aborted"])
             try:
+                if op == "aborted":
+                    # a session that fails half way writes nothing back
+                    ops.append(["append then remove of a missing value (ValueError expected), via the dict view" if dict_view is not None
+                                else "append then remove of a missing value (ValueError expected)"])
+                    try:
+                        with (dict_view["List"] if dict_view is not None else
+                              next(iter(d)).get_kvpair_element("List").interpret_as(interp[kind])) as l:
+                            l.append("aborted")
+                            l.remove("no-such-value")
+                        bad = t.failed("removing a value that is not in the list did not raise", document=doc, operations=ops)
+                        break
+                    except ValueError:
+                        pass
+                    with (dict_view["List"] if dict_view is not None else
+                          next(iter(d)).get_kvpair_element("List").interpret_as(interp[kind])) as l:
+                        seen = list(l)
+                    if seen != model or d.dump() != doc:
+                        bad = t.failed("an aborted edit session left traces (view or document changed)", document=doc, kind=kind,
+                                       operations=ops, view=seen, expected=model, dump=d.dump())
+                        break
+                    continue
                 kv = next(iter(d)).get_kvpair_element("List")
-                with kv.interpret_as(interp[kind]) as l:
+                with (dict_view["List"] if dict_view is not None else kv.interpret_as(interp[kind])) as l:
                     if op == "append":
                         v = rng.choice(WORDS + ["new"])
                         ops.append(["append", v])
